@@ -398,7 +398,15 @@ impl<'a, R: 'a + Read + Seek> Read for CompressionLayerReader<'a, R> {
                     return self.read(buf);
                 }
                 let size = std::cmp::min((uncompressed_size - read) as usize, buf.len());
-                let read_add = decompressor.read(&mut buf[..size])?;
+                let read_add = match decompressor.read(&mut buf[..size]) {
+                    Ok(read_add) => read_add,
+                    Err(err) => {
+                        // Keep the reader usable (seek, other blocks) after the error
+                        self.state =
+                            CompressionLayerReaderState::Ready(decompressor.into_inner().into_inner());
+                        return Err(err);
+                    }
+                };
                 self.underlayer_pos += read_add as u64;
                 self.state = CompressionLayerReaderState::InData {
                     read: read
@@ -424,6 +432,13 @@ impl<R: Read + Seek> Seek for CompressionLayerReader<'_, R> {
     fn seek(&mut self, pos: SeekFrom) -> io::Result<u64> {
         // Seeking may instantiate a decompressor, and therefore position the
         // inner layer at the end of the asked position's compressed block
+        if matches!(self.state, CompressionLayerReaderState::Empty) {
+            // A previous operation failed while the state was taken
+            return Err(Error::WrongReaderState(
+                "[Compression Layer] Unusable after a previous error".to_string(),
+            )
+            .into());
+        }
         match &self.sizes_info {
             Some(sizes_info) => {
                 match pos {
